@@ -10,3 +10,19 @@ Theorem C20_choice_is_a_function : forall e b w e' b' w', e = e' -> b = b' -> w 
 Proof. intros; subst; reflexivity. Qed.
 End Sampler.
 Print Assumptions C20_choice_is_a_function.
+
+(* What the regenerated flag says about the source: Profile::rng hashes (epochs, node.bucket()) and nothing
+   else, and explore_one / explore_any draw only from that generator (the translator refuses any other shape of
+   the three functions).  With the hash H as an uninterpreted function, nodes of one information set - whatever
+   their tree, their position or the part of their history a Bucket does not recall - get one seed. *)
+From RP Require Import Gen.GenFixes.
+Section Seed.
+Variables (bucket rest : Type) (H : Z -> bucket -> Z) (H' : Z -> bucket -> rest -> Z).
+Record node := mkNode { n_bucket : bucket; n_rest : rest }.
+Definition seed (e : Z) (n : node) : Z :=
+  if SAMPLER_SEEDED_BY_EPOCH_AND_INFOSET then H e (n_bucket n) else H' e (n_bucket n) (n_rest n).
+Theorem C20_seed_depends_on_epoch_and_infoset_only :
+  forall e n n', n_bucket n = n_bucket n' -> seed e n = seed e n'.
+Proof. intros e n n' Hb. unfold seed. change SAMPLER_SEEDED_BY_EPOCH_AND_INFOSET with true. cbv iota. rewrite Hb. reflexivity. Qed.
+End Seed.
+Print Assumptions C20_seed_depends_on_epoch_and_infoset_only.
